@@ -10,7 +10,7 @@ def run(ctx):
     ctx.rule = ("Fonts (3 / 40 / 300 glyphs, all encodings), metrics (up to 200 glyphs, four ligatures on every third glyph) "
                 "and input files (the corpus plus a file defining five CMaps) are written / read R times in each of P "
                 "separate processes (fresh map hash seeds); every observation (call, input, process, repetition, digest) is an "
-                "event; three fonts (one of them uses the package's StandardEncoding table itself as its encoding) are written before "
+                "event; metrics files are read and written repeatedly (one with NaN glyph boxes, which the reader accepts); three fonts (one of them uses the package's StandardEncoding table itself as its encoding) are written before "
                 "and after each other and the table is digested before and after; TLC validates that every digest equals the first digest of its (call, input) group "
                 "(Determinism!Consistent via TraceDeterminism). Determinism.tla also contains the emitter model: TLC shows "
                 "that a sorting emission loop has one output and a non-sorting one several. distinct = (call, input) groups.")
